@@ -9,24 +9,24 @@
 (* Reset lines, which rebuild M from the abstract descriptor with the      *)
 (* specification's own generator model.                                    *)
 (***************************************************************************)
-EXTENDS Contract, Json, IOUtils, TLCExt
+EXTENDS Judge, Json, IOUtils, TLCExt
 
 TraceLog == ndJsonDeserialize(IOEnv.VERIF_TRACE)
 
 VARIABLES l,      \* next line to consume
           bid,    \* behaviour id
+          shp,    \* shape id of the behaviour (relational memory is kept per shape)
           ok,     \* behaviour has a registered (generated + compiled) root type
           M,      \* built message of the root (spec's generator model)
           tt,     \* Terraform type of the REAL schema
           ev,     \* properties to evaluate for this behaviour
           obj, tf,\* the session state: Go struct value and Terraform object (REAL, as recorded)
-          rt      \* round-trip memory: [armed, orig]
+          aux     \* history for the relational clauses (Judge.tla)
 
-vars == <<l, bid, ok, M, tt, ev, obj, tf, rt>>
+vars == <<l, bid, shp, ok, M, tt, ev, obj, tf, aux>>
 
 Line == TraceLog[l]
 NilObject == VObj(FALSE, FALSE, EmptyFn, EmptyFn, TRUE)
-NoRT == [armed |-> FALSE, orig |-> Nil]
 
 DgSet(dg) == {[sev |-> dg[i].sev, kind |-> dg[i].kind, path |-> dg[i].path] : i \in DOMAIN dg}
 
@@ -54,15 +54,11 @@ ReportE(viol, drift, what, evald) ==
                          drift |-> drift, what |-> what, evald |-> evald]))
      ELSE TRUE
 
-Report(viol, drift, what) == ReportE(viol, drift, what, {})
-
-Wants(p) == \E i \in DOMAIN ev : ev[i] = p
-
-IsEmptyTyped(tv) == tv.k = "obj" /\ ~tv.null /\ ~tv.unk /\ tv.at = tt.at /\ DOMAIN tv.attrs = {}
+Wanted == {ev[i] : i \in DOMAIN ev}
 
 Init ==
-  /\ l = 1 /\ bid = "" /\ ok = FALSE /\ M = NoBuilt /\ tt = TNone /\ ev = <<>>
-  /\ obj = Nil /\ tf = NilObject /\ rt = NoRT
+  /\ l = 1 /\ bid = "" /\ shp = "" /\ ok = FALSE /\ M = NoBuilt /\ tt = TNone /\ ev = <<>>
+  /\ obj = Nil /\ tf = NilObject /\ aux = NoAux
   /\ TLCSet(2, 0) /\ TLCSet(3, 0)
 
 IsEvent(e) == l <= Len(TraceLog) /\ Line.ev = e /\ l' = l + 1
@@ -73,85 +69,47 @@ TraceReset ==
   /\ IsEvent("Reset")
   /\ LET b == BuildRoot(Line.meta.d, Line.meta.cfg, Line.meta.root)
      IN /\ bid' = Line.id
+        /\ shp' = Line.meta.shape
         /\ ok' = (Line.registered /\ b.ok)
         /\ M' = b.m
         /\ tt' = SchemaTT(Line.schema)
         /\ ev' = Line.meta.eval
         /\ obj' = b.m.zero
         /\ tf' = NilObject
-        /\ rt' = NoRT
-        /\ Report({}, b.ok /\ Line.registered /\ SchemaTT(Line.schema) # b.m.tt, "schema type vs model")
+        \* pairwise memory (C05) survives from behaviour to behaviour of the same shape
+        /\ aux' = IF Line.meta.shape = shp THEN [NoAux EXCEPT !.memo = aux.memo] ELSE NoAux
+        /\ ReportE({}, b.ok /\ Line.registered /\ SchemaTT(Line.schema) # b.m.tt, "schema type vs model", {})
 
-TraceSetObj ==
-  /\ IsEvent("SetObj") /\ ok
+\* every other line: an action of the session machine whose post-state is the RECORDED one
+TraceStep(e) ==
+  /\ IsEvent(e) /\ ok
   /\ obj' = Line.obj /\ tf' = Line.tf
-  /\ UNCHANGED <<bid, ok, M, tt, ev>>
-  /\ rt' = NoRT
-  /\ Report({}, Line.tf # tf, "SetObj changed tf")
-
-TraceFreshObj ==
-  /\ IsEvent("FreshObj") /\ ok
-  /\ obj' = Line.obj /\ tf' = Line.tf
-  /\ UNCHANGED <<bid, ok, M, tt, ev, rt>>
-  /\ Report({}, Line.obj # M.zero \/ Line.tf # tf, "fresh struct vs model zero")
-
-TraceNewEmpty ==
-  /\ IsEvent("NewEmpty") /\ ok
-  /\ obj' = Line.obj /\ tf' = Line.tf
-  /\ UNCHANGED <<bid, ok, M, tt, ev>>
-  /\ rt' = NoRT
-  /\ Report({}, ~IsEmptyTyped(Line.tf) \/ Line.obj # obj, "empty object")
-
-TraceLoad ==
-  /\ (IsEvent("LoadRaw") \/ IsEvent("LoadPlan")) /\ ok
-  /\ obj' = Line.obj /\ tf' = Line.tf
-  /\ UNCHANGED <<bid, ok, M, tt, ev>>
-  /\ rt' = NoRT
-  /\ Report({}, Line.obj # obj, "Load changed obj")
-
-TraceCopyTo ==
-  /\ IsEvent("CopyTo") /\ ok
-  /\ obj' = Line.obj /\ tf' = Line.tf
-  /\ UNCHANGED <<bid, ok, M, tt, ev>>
+  /\ UNCHANGED <<bid, shp, ok, M, tt, ev>>
   /\ LET pn == Line.panic # ""
-         impl == ToMsg(M, obj, tf)
-         fromEmpty == IsEmptyTyped(tf)
-         ctx == [M |-> M, tt |-> tt, obj |-> obj, tf |-> Line.tf, dg |-> Line.diags, pn |-> pn, conv |-> Line.conv]
-         viol == (IF fromEmpty /\ Wants("C03") THEN C03(ctx) ELSE {})
-            \cup (IF fromEmpty /\ Wants("C20") THEN C20(ctx) ELSE {})
-            \cup (IF fromEmpty /\ Wants("C07") /\ ~pn THEN C07To(M, obj, Line.tf) ELSE {})
-         drift == \/ pn # impl.pn
-                  \/ (~pn /\ (MaskTf(M, Line.tf) # MaskTf(M, impl.tf) \/ DgSet(Line.diags) # DgSet(impl.dg)))
-                  \/ Line.obj # obj
-     IN /\ rt' = IF fromEmpty /\ ~pn THEN [armed |-> TRUE, orig |-> obj] ELSE NoRT
-        /\ ReportE(viol, drift, "CopyTo", {p \in {"C03", "C20", "C07"} : fromEmpty /\ Wants(p)})
-
-TraceCopyFrom ==
-  /\ IsEvent("CopyFrom") /\ ok
-  /\ obj' = Line.obj /\ tf' = Line.tf
-  /\ UNCHANGED <<bid, ok, M, tt, ev>>
-  /\ rt' = NoRT
-  /\ LET pn == Line.panic # ""
-         impl == FromMsg(M, tf, obj)
-         fresh == obj = M.zero
-         rtctx == [M |-> M, orig |-> rt.orig, back |-> Line.obj]
-         viol == (IF rt.armed /\ fresh /\ ~pn /\ Wants("C04") THEN C04(rtctx) ELSE {})
-            \cup (IF rt.armed /\ fresh /\ ~pn /\ Wants("C19") THEN C19(rtctx) ELSE {})
-            \cup (IF rt.armed /\ fresh /\ pn /\ (Wants("C04") \/ Wants("C19")) THEN {[c |-> "C04.roundtrip", p |-> M.path, sig |-> PanicSig(M, obj)]} ELSE {})
-            \cup (IF Wants("C07") /\ ~pn /\ Conforms(tf, tt) THEN C07From(M, tf, Line.obj) ELSE {})
-         drift == \/ pn # impl.pn
-                  \/ (~pn /\ (MaskCustomGo(M, 1, Line.obj) # MaskCustomGo(M, 1, impl.obj) \/ DgSet(Line.diags) # DgSet(impl.dg)))
-                  \/ Line.tf # tf
-     IN ReportE(viol, drift, "CopyFrom",
-                {p \in {"C04", "C19"} : rt.armed /\ fresh /\ Wants(p)} \cup {p \in {"C07"} : Wants(p) /\ ~pn /\ Conforms(tf, tt)})
+         j == Judge(e, Wanted, M, tt, aux, [pobj |-> obj, ptf |-> tf, obj |-> Line.obj, tf |-> Line.tf, dg |-> Line.diags, pn |-> pn, conv |-> Line.conv])
+         toR == ToMsg(M, obj, tf)
+         fromR == FromMsg(M, tf, obj)
+         drift ==
+           CASE e = "SetObj" -> Line.tf # tf
+             [] e = "FreshObj" -> Line.obj # M.zero \/ Line.tf # tf
+             [] e = "NewEmpty" -> ~IsEmptyOf(Line.tf, tt.at) \/ Line.obj # obj
+             [] e \in {"LoadRaw", "LoadPlan"} -> Line.obj # obj
+             [] e = "CopyTo" -> \/ pn # toR.pn \/ Line.obj # obj
+                                \/ (~pn /\ (MaskTf(M, Line.tf) # MaskTf(M, toR.tf) \/ DgSet(Line.diags) # DgSet(toR.dg)))
+             [] e = "CopyFrom" -> \/ pn # fromR.pn \/ Line.tf # tf
+                                  \/ (~pn /\ (MaskCustomGo(M, 1, Line.obj) # MaskCustomGo(M, 1, fromR.obj) \/ DgSet(Line.diags) # DgSet(fromR.dg)))
+             [] OTHER -> FALSE
+     IN /\ aux' = j.aux
+        /\ ReportE(j.viol, drift /\ ~("nodrift" \in Wanted), e, j.evald)
 
 \* a behaviour whose root type was not generated / did not compile: its lines are skipped
 TraceSkip ==
   /\ l <= Len(TraceLog) /\ Line.ev # "Reset" /\ ~ok /\ l' = l + 1
-  /\ UNCHANGED <<bid, ok, M, tt, ev, obj, tf, rt>>
+  /\ UNCHANGED <<bid, shp, ok, M, tt, ev, obj, tf, aux>>
   /\ TLCSet(2, l)
 
-Next == TraceReset \/ TraceSetObj \/ TraceFreshObj \/ TraceNewEmpty \/ TraceLoad \/ TraceCopyTo \/ TraceCopyFrom \/ TraceSkip
+Next == \/ TraceReset \/ TraceSkip
+        \/ \E e \in {"SetObj", "FreshObj", "NewEmpty", "LoadRaw", "LoadPlan", "CopyTo", "CopyFrom"} : TraceStep(e)
 
 Spec == Init /\ [][Next]_vars
 
